@@ -1,0 +1,10 @@
+//go:build !verif
+
+// Package vhook provides named yield points used by the verification harness.
+// Without the "verif" build tag every function here is an empty stub that the
+// compiler inlines away.
+package vhook
+
+// Point marks a named yield point. It does nothing unless built with the
+// "verif" tag.
+func Point(name string) {}
